@@ -47,11 +47,29 @@ W14 = [Fraction(1, 2), Fraction(1, 4), Fraction(3, 4), Fraction(1, 3), Fraction(
 
 
 def make_case(rng, i, tier):
-    kind = rng.choice(["equal_by_construction", "perturbed", "independent", "self", "empty", "redundant"])
+    kind = rng.choice(["equal_by_construction", "perturbed", "independent", "self", "empty", "redundant", "trie_equal_leaves", "extra_symbol"])
     a, _ = gen.gen_wfsa(rng, nstates=rng.choice([1, 2, 3, 3, 4] if tier == "quick" else [2, 3, 4, 5, 6]), weights=W14,
                         shape=rng.choice(["plain", "multi_init_final", "parallel", "eps", "dead_states", "acyclic", "init_is_final"]))
     syms = a["syms"]
-    if kind == "empty":
+    if kind == "trie_equal_leaves":
+        # deterministic trie whose leaves have identical futures: forward-independent states, Hankel rank smaller than the state count
+        w = common.frac_str(rng.choice(W14))
+        s2 = (syms + ["b"])[:2] if len(syms) > 1 else [syms[0], "b"]
+        a = {"start": [["r", "1"]], "stop": [["l1", w], ["l2", w]], "arcs": [["r", s2[0], "l1", "1/2"], ["r", s2[1], "l2", "1/2"]], "syms": s2}
+        if rng.random() < 0.5:
+            a["arcs"] += [["l1", s2[0], "m1", "1/4"], ["l2", s2[0], "m2", "1/4"]]
+            a["stop"] += [["m1", "1"], ["m2", "1"]]
+        syms = s2
+        b = json.loads(json.dumps(a))
+    elif kind == "extra_symbol":
+        # the second automaton knows a symbol the first one lacks and gives strings containing it non-zero weight
+        b = json.loads(json.dumps(a))
+        q0 = b["start"][0][0] if b["start"] else 0
+        b["arcs"].append([q0, "z", "zfin", "1/2"])
+        b["stop"].append(["zfin", "1"])
+        if not b["start"]:
+            b["start"] = [[q0, "1"]]
+    elif kind == "empty":
         a = {**a, "stop": []}
         b = {"start": [], "stop": [], "arcs": [], "syms": syms}
     elif kind == "self":
@@ -84,7 +102,9 @@ def make_case(rng, i, tier):
         b, _ = gen.gen_wfsa(rng, nstates=rng.choice([1, 2, 3]), nsyms=len(syms), weights=W14)
     if rng.random() < 0.5:
         a, b = b, a
-    xs = gen.all_strings(syms, 2 if len(syms) > 1 else 3)
+    allsyms = sorted({e[1] for d in (a, b) for e in d["arcs"] if e[1] != ""}) or syms
+    xs = gen.all_strings(allsyms, 2 if len(allsyms) > 1 else 3)
+    syms = allsyms
     return {"id": i, "kind": kind, "a": a, "b": b, "xs": xs, "syms": syms}
 
 
